@@ -43,6 +43,7 @@ type pkgInfo struct {
 	globals    map[string]string // package-level var name -> singleton type name ("" if unknown)
 	singletons map[string]bool   // type names that are the type of some package-level var
 	syncVars   map[string]bool   // package-level vars whose declared type is built from sync / sync/atomic types
+	syncFields map[string]bool   // "Type.field" for struct fields whose type is built from sync / sync/atomic types
 }
 
 type siteTab struct {
@@ -87,7 +88,7 @@ func main() {
 	var globalsIndex = map[string][]string{}
 	for _, d := range dirs {
 		fset := token.NewFileSet()
-		pk := &pkgInfo{dir: d, files: map[string]*ast.File{}, globals: map[string]string{}, singletons: map[string]bool{}, syncVars: map[string]bool{}}
+		pk := &pkgInfo{dir: d, files: map[string]*ast.File{}, globals: map[string]string{}, singletons: map[string]bool{}, syncVars: map[string]bool{}, syncFields: map[string]bool{}}
 		ents, _ := os.ReadDir(d)
 		for _, e := range ents {
 			n := e.Name()
@@ -201,8 +202,15 @@ func collectGlobals(pk *pkgInfo) {
 			for _, sp := range gd.Specs {
 				switch s := sp.(type) {
 				case *ast.TypeSpec:
-					if _, ok := s.Type.(*ast.StructType); ok {
+					if st, ok := s.Type.(*ast.StructType); ok {
 						structs[s.Name.Name] = true
+						for _, fl := range st.Fields.List {
+							if mentionsSync(fl.Type) {
+								for _, fn := range fl.Names {
+									pk.syncFields[s.Name.Name+"."+fn.Name] = true
+								}
+							}
+						}
 					}
 				case *ast.ValueSpec:
 					if gd.Tok != token.VAR {
@@ -382,6 +390,11 @@ func (in *instr) path(e ast.Expr) string {
 		}
 	case *ast.SelectorExpr:
 		if p := in.path(x.X); p != "" {
+			// p is "<pkg>.<Type>[.field…]": a field whose declared type is a sync / atomic type is a synchronisation object
+			if parts := strings.Split(p, "."); len(parts) == 2 && in.pk.syncFields[parts[1]+"."+x.Sel.Name] {
+				in.sawSync = true
+				return ""
+			}
 			return p + "." + x.Sel.Name
 		}
 	case *ast.IndexExpr:
@@ -442,6 +455,18 @@ func (in *instr) accesses(s ast.Stmt) []acc {
 						}
 						return false
 					}
+					if lockAPI[sel.Sel.Name] {
+						// a lock operation: already a scheduling point inside the vsync shim; no extra point, no access event
+						saved := in.sawSync
+						root := in.path(sel.X)
+						in.sawSync = saved
+						if root != "" || in.isSyncRooted(sel.X) {
+							for _, a := range x.Args {
+								reads(a)
+							}
+							return false
+						}
+					}
 					if p := in.path(sel.X); p != "" {
 						if !syncAPI[sel.Sel.Name] {
 							add(p, false)
@@ -464,7 +489,9 @@ func (in *instr) accesses(s ast.Stmt) []acc {
 			case *ast.UnaryExpr:
 				if x.Op == token.AND {
 					if p := in.path(x.X); p != "" {
-						add(p, true) // address taken: assume it may be written through
+						// taking an address is not an access; what happens through the pointer later is invisible to a
+						// name-based monitor (it is covered by result comparison and the -race adjunct).  Assuming a write
+						// here made correct lock-free code (pointer to a slot, then atomic methods) look racy.
 						return false
 					}
 				}
@@ -558,6 +585,16 @@ func (in *instr) accesses(s ast.Stmt) []acc {
 		return in.accesses(x.Stmt)
 	}
 	return out
+}
+
+// isSyncRooted: the expression is a package-level sync variable or a sync-typed field of a singleton / receiver.
+func (in *instr) isSyncRooted(e ast.Expr) bool {
+	saved := in.sawSync
+	in.sawSync = false
+	_ = in.path(e)
+	r := in.sawSync
+	in.sawSync = saved
+	return r
 }
 
 func (in *instr) isSingletonRoot(loc string) bool {
